@@ -35,6 +35,12 @@ _pk = [0]
 ABSENT = type("Absent", (), {"__repr__": lambda self: "<absent>"})()
 
 
+class GeneratedCodeBroken(Exception):
+    def __init__(self, what, exc):
+        super().__init__(what)
+        self.exc = exc
+
+
 class Foreign:
     """an object of a type no field accepts"""
 
@@ -53,11 +59,13 @@ def _generate(models, nsdir, out):
     try:
         lctx = LanguageContextBuilder(include_experimental_languages=True).set_target_language("py").create()
         tree = nunavut.build_namespace_tree(models, str(nsdir), str(out), lctx)
-        gen, sup = nunavut.create_default_generators(tree)
+        from nunavut._generators import create_default_generators
+
+        gen, sup = create_default_generators(tree)
         sup.generate_all(False, True, False, False)
         gen.generate_all(False, True, False, False)
         return True
-    except (AttributeError, TypeError):  # the library API moved: the one-call public helper still exists
+    except (AttributeError, TypeError, ImportError):  # the library API moved: the one-call public helper still exists
         nunavut.generate_types("py", nsdir, out, omit_serialization_support=False, allow_unregulated_fixed_port_id=True,
                                include_experimental_languages=True)
         return False
@@ -130,17 +138,22 @@ class Pkg:
             del sys.modules["nunavut_support"]
         with warnings.catch_warnings():
             warnings.simplefilter("ignore")
-            self.support = importlib.import_module("nunavut_support")
             self.comps = {}  # str(model) -> Comp   (messages, Request, Response)
             self.services = []  # (model, class)
-            for m in self.models:
-                cls = self._find(m)
-                if isinstance(m, pydsdl.ServiceType):
-                    self.services.append((m, cls))
-                    for half, mm in (("Request", m.request_type), ("Response", m.response_type)):
-                        self.comps[str(mm)] = Comp(mm, getattr(cls, half), m)
-                else:
-                    self.comps[str(m)] = Comp(m, cls, m)
+            try:
+                self.support = importlib.import_module("nunavut_support")
+                for m in self.models:
+                    cls = self._find(m)
+                    if isinstance(m, pydsdl.ServiceType):
+                        self.services.append((m, cls))
+                        for half, mm in (("Request", m.request_type), ("Response", m.response_type)):
+                            self.comps[str(mm)] = Comp(mm, getattr(cls, half), m)
+                    else:
+                        self.comps[str(m)] = Comp(m, cls, m)
+            except MachineryFailure:
+                raise
+            except Exception as ex:  # noqa  the generated package itself raises while being imported
+                raise GeneratedCodeBroken("importing the generated package %s raised %s: %s" % (ns, type(ex).__name__, ex), type(ex).__name__)
 
     @staticmethod
     def _find(m):
@@ -709,12 +722,14 @@ def spec_to_code(ctx, pkg, hists, n_inst, full_single):
                 nskip += skipped
                 nhist += not skipped
                 if f is not None:
-                    if f.kind == "drift":
-                        if f.sig in drift_seen:
-                            continue
-                        drift_seen.add(f.sig)
-                    report(ctx, f, {"dir": "spec->code", "ksel": ks, "union": union, "variant": j, "salt": salt, "actions": actions,
-                                    "histories": compatible(hl, actions)})
+                    first = f.sig not in drift_seen  # the self-contained case is built once per signature (it is costly)
+                    drift_seen.add(f.sig)
+                    if f.kind == "drift" and not first:
+                        continue
+                    case = {"dir": "spec->code", "ksel": ks, "union": union, "variant": j, "salt": salt, "actions": actions}
+                    if first:
+                        case["histories"] = compatible(hl, actions)
+                    report(ctx, f, case)
             cands = [a.get("c") for a in actions[1:]] + [c for c in actions[0]["kw"] if c != "absent"]
             ctx.distinct("h|%d|%d|%s" % (ks, union, sha(key)[:12]), nontrivial=any(c not in VALID_LABELS for c in cands) or len(actions) > 1)
     ctx.count(nsteps)
@@ -1244,7 +1259,7 @@ def recs_by_id(recs, rid):
 
 
 # ------------------------------------------------------------------------------------------------------------------------------
-def selftests(ctx, pkg, hists, recs):
+def selftests(ctx, pkg, hists, recs, rejected):
     # (1) spec -> code: perturb one expected outcome of an emitted history, the driver must report the mismatch
     kinds = KVEC[1]
     comp = pkg.comps["%s.S1v2.1.0" % pkg.ns]
@@ -1279,7 +1294,7 @@ def selftests(ctx, pkg, hists, recs):
     # (2) code -> spec: corrupt one recorded field, the T-layer must reject exactly that record
     def first(pred):
         for r in recs:
-            if pred(r):
+            if r["id"] not in rejected and pred(r):  # only records the T-layer accepted are corrupted
                 return json.loads(json.dumps(r))
         raise MachineryFailure("self-test: no suitable recorded event found")
 
@@ -1350,8 +1365,6 @@ def part_spec_to_code(ctx, pkg_a):
     groups = emit_all(ctx, ctx.pick("PyObject_emitq", "PyObject_emit"), "MaxHist=3 CtorSpecial=1 (emission)")
     if not pkg_a.fine_api:
         ctx.not_exercised("build_namespace_tree/create_default_generators path (fell back to nunavut.generate_types)")
-    import time
-    print("T emitted", time.time() - ctx.t0)
     nhist, nsteps, nskip = spec_to_code(ctx, pkg_a, groups, ctx.pick(1, 3), True)
     g0 = groups[(1, True)][len(groups[(1, True)]) // 2]
     ctx.sample({"direction": "spec->code", "class": "c18a.U1v*.1.0 (union of int, byte array, composite)", "history": g0})
@@ -1362,11 +1375,19 @@ def part_spec_to_code(ctx, pkg_a):
 
 def part_code_to_spec(ctx, pkg_a):
     recs, meta = [], {}
-    pkgs = [pkg_a, Pkg(ctx, "c18s", {k: v.replace("{ns}", "c18s") for k, v in special_files().items()})]
+    pkgs = [pkg_a]
+    try:
+        pkgs.append(Pkg(ctx, "c18s", {k: v.replace("{ns}", "c18s") for k, v in special_files().items()}))
+    except GeneratedCodeBroken as ex:
+        ctx.violation("C18|pyobj.import|" + ex.exc, str(ex), {"dir": "code->spec", "seed": ctx.seed, "tier": ctx.tier, "files": special_files()})
     ntypes = ctx.pick(60, 140)
     for i in range(ctx.pick(2, 8)):
         ns = "c18r%d" % i
-        pkgs.append(Pkg(ctx, ns, rand_files(ctx.rng, ns, ntypes)))
+        files = rand_files(ctx.rng, ns, ntypes)
+        try:
+            pkgs.append(Pkg(ctx, ns, files))
+        except GeneratedCodeBroken as ex:
+            ctx.violation("C18|pyobj.import|" + ex.exc, str(ex), {"dir": "code->spec", "seed": ctx.seed, "tier": ctx.tier, "files": files})
     for p in pkgs:
         model_events(ctx, p, recs, meta)
     for p in pkgs[1:]:
@@ -1379,25 +1400,21 @@ def part_code_to_spec(ctx, pkg_a):
             ctx.sample({"direction": "code->spec", "event": {k: (v if len(json.dumps(v)) < 400 else "...") for k, v in ex.items()}, "info": meta[ex["id"]]})
     ctx.cov["code_to_spec"] = {ev: sum(1 for r in recs if r["ev"] == ev) for ev in ("ctor", "assign", "model", "rt")}
     ctx.cov["code_to_spec"]["generated_classes"] = sum(len(p.comps) + len(p.services) for p in pkgs)
-    import time
-    print("T recorded", time.time() - ctx.t0, ctx.cov["code_to_spec"])
-    judge(ctx, recs, meta)
-    return recs
+    rej = judge(ctx, recs, meta)
+    return recs, set(rej)
 
 
 def run(ctx):
-    import time
-    t0 = time.time()
     part_model(ctx)
-    print("T model", time.time() - t0)
-    pkg_a = Pkg(ctx, "c18a", abstract_files("c18a"))
-    print("T pkg", time.time() - t0)
+    try:
+        pkg_a = Pkg(ctx, "c18a", abstract_files("c18a"))
+    except GeneratedCodeBroken as ex:  # no class can honour its contract
+        ctx.violation("C18|pyobj.import|" + ex.exc, str(ex), {"dir": "spec->code", "files": "abstract_files"})
+        ctx.not_exercised("everything after the import of the generated package")
+        return
     groups = part_spec_to_code(ctx, pkg_a)
-    print("T s2c", time.time() - t0)
-    recs = part_code_to_spec(ctx, pkg_a)
-    print("T c2s", time.time() - t0)
-    selftests(ctx, pkg_a, groups, recs)
-    print("T self", time.time() - t0)
+    recs, rejected = part_code_to_spec(ctx, pkg_a)
+    selftests(ctx, pkg_a, groups, recs, rejected)
 
     ctx.cov["rule"] = ("spec->code: every complete history emitted by PyObject.tla (3 kind vectors x struct/union, constructor + 2 actions) on "
                        "%d concrete classes; distinct = action sequence per configuration, non-trivial = contains a non-valid candidate or "
@@ -1416,6 +1433,13 @@ def run(ctx):
 
 
 def replay(ctx, case):
+    if "files" in case:  # the generated package could not be imported
+        try:
+            Pkg(ctx, "c18x", abstract_files("c18x") if case["files"] == "abstract_files" else
+                {k: v.replace("{ns}", "c18x").replace("c18s", "c18x") for k, v in case["files"].items()})
+        except GeneratedCodeBroken as ex:
+            ctx.violation("C18|pyobj.import|" + ex.exc, str(ex), case)
+        return
     if case.get("dir") == "spec->code":
         pkg = Pkg(ctx, "c18a", abstract_files("c18a"))
         ks, union = case["ksel"], case["union"]
